@@ -21,4 +21,27 @@ ENTRIES = {
             "text": "data_to_send: result ++ remaining == old pending for every amount (None, negative, zero, larger than pending; Python slice semantics modelled exactly), frame = the "
                     "buffer only. Every send: pending' == pending ++ enc(the message) on success, unchanged on failure. 'drained ++ pending == concatenation of successful encodings' is then an invariant of every history."},
 }
+_ASN_TECH = "contract-based deductive verification: pre/postconditions and loop invariants on every function of the real asn1.py against X.690 spec functions, lemmas as ghost functions, VCs from the AST on every run discharged by z3 5.1 / z3 4.8.12 / cvc5 1.0.3; run-time checking of the same contracts plus an int.from_bytes oracle as bounded stand-in/replay"
+_TB_ASN = ("Trusted: pyvc's model of the Python subset (unbounded ints, octet sequences, Python slice/index semantics, implicit exceptions), unsat answers of z3 5.1 / z3 4.8.12 / cvc5 1.0.3, "
+           "the X.690 spec functions in /verif/specs/ber.py. Assumed: len(x) < 2^63, INTEGER contents of at most 2^40 octets, tag numbers >= 0. Small helpers without a contract are executed symbolically at each call site.")
+ENTRIES.update({
+    "C07": {"category": "proof", "technique": _ASN_TECH, "note": _TB_ASN,
+            "text": "All 29 functions/methods of asn1.py are verified for all inputs: the INTEGER writer emits content c with tc(c) == value and minimal_tc(c) (two's complement, X.690 8.3); the reader returns tc(content) "
+                    "for any non-empty content, padded or not; identifier and length octets are written minimally and parsed by a header reader proved equal to the X.690 denotation for every definite form; "
+                    "readers advance by exactly the TLV they return and do not move on exceptions. Round trips (tag, length, integer, boolean, octet string, one nesting level) are lemmas over these contracts "
+                    "(lemma_tlv_roundtrip: unique readability whatever follows), so they hold for every value, not for sampled ones."},
+    "C06": {"category": "proof", "technique": _SESSION_TECH.replace("_session.py", "_session.py / _messages.py"), "note": _TB,
+            "text": "unpack_ldap_message is proved to raise NotEnougData only when the outermost TLV is incomplete and then without moving the reader; any shortage inside a complete envelope becomes ValueError. "
+                    "receive is proved (both buffer paths, loop invariants over msgs/residue) to return exactly the messages of the complete top-level TLVs of buffered ++ delivered bytes and to keep exactly the residue, "
+                    "which never starts with a complete TLV (lemma_residue_incomplete); every other outcome is ProtocolError."},
+    "C02": {"category": "proof", "technique": _SESSION_TECH.replace("_session.py", "_session.py / _messages.py"), "note": _TB + " The final composition over a partition into chunks (fold of the per-call contracts) is a paper argument stated in the evidence.",
+            "text": "receive's contract is stated over R ++ data (R = bytes held back): result == msgs(R ++ data), buffer' == residue(R ++ data), identical for the buffered and the direct path. "
+                    "lemma_chunk (induction over frames, using prefix-stability of the X.690 header denotation) proves msgs(A ++ B) == msgs(A) ++ msgs(residue(A) ++ B) and residue(A ++ B) == residue(residue(A) ++ B), "
+                    "so any chunking returns the same messages in the same order and leaves the same buffer; octet strings are copied out of the view (read_octet_string returns bytes)."},
+    "C05": {"category": "other", "technique": _SESSION_TECH + "; exception containment below the envelope is a trusted contract backed by a bounded corruption sweep", "note": _TB,
+            "text": "Proved: LDAPSession/LDAPClient/LDAPServer.receive and _process_incoming_message raise nothing but ProtocolError (every implicit exception site is an obligation: set.remove, indexing, enum conversion, "
+                    "attribute access on None), a CLOSED session raises without touching its buffers, every error path ends CLOSED with the outstanding set cleared, and the attached response is the encoding of an UnbindRequest "
+                    "(client) / notice of disconnection with PROTOCOL_ERROR (server). Not proved (level 'other'): that the decoders below the envelope raise only ValueError / NotImplementedError / NotEnougData / RecursionError - "
+                    "that contract is trusted and exercised by the bounded sweep (malformed interiors, 1500-deep filters, every single-octet header corruption, every chunking)."},
+})
 NOT_APPLICABLE = {}
